@@ -840,7 +840,14 @@ def step (d : DState) (line : String) : DState × String :=
   | ["hold"] => if !d.ready then (d, "bad-op") else ({ d with held := true }, "ok")
   | "release" :: rest =>
     if !d.ready ∨ !d.held then (d, "bad-op") else
-    match runPrims d (if rest.isEmpty then [["events"]] else [rest]) obs false with
+    let prims : Option (List (List String)) := match rest with
+      | [] => some [["events"]]
+      | "burst" :: n :: op =>
+        match n.toNat? with
+        | some n => if n < 1 ∨ n > 6000 ∨ op.isEmpty then none else some (List.replicate n op)
+        | none => none
+      | _ => some [rest]
+    match prims.bind (fun ps => runPrims d ps obs false) with
     | some r => r
     | none => (d, "bad-op")
   | "burst" :: n :: rest =>
